@@ -110,7 +110,7 @@ def main(argv=None):
     cov['known_findings_matched'] = known_hit
     cov['unlisted_violation_keys'] = unknown
     cov['inconclusive'] = out.get('inconclusive', [])
-    if not args.replay:
+    if not args.replay and not os.environ.get('VP_NO_EVIDENCE'):
         write_evidence(prop, env.tier, env.seed, out.get('level', 'exploration'), cov, wall, unknown,
                        out.get('assumptions', []))
     print('%s tier=%s seed=%d: %d evaluations, %d distinct non-trivial, %d unlisted violation key(s), '
